@@ -97,7 +97,7 @@ esl_sxp_cdf(double x, double mu, double lambda, double tau)
   double val;
 
   if (x <= mu) return 0.;
-  esl_stats_IncompleteGamma(1/tau, exp(tau * log(y)), &val, NULL);
+  if (esl_stats_IncompleteGamma(1/tau, exp(tau * log(y)), &val, NULL) != eslOK) return eslNaN; /* <val> was not set */
   
   ESL_DASSERT1 (( !isnan(val)));
   return val;
@@ -116,7 +116,7 @@ esl_sxp_logcdf(double x, double mu, double lambda, double tau)
   double val;
 
   if (x <= mu) return -eslINFINITY;
-  esl_stats_IncompleteGamma(1./tau, exp(tau * log(y)), &val, NULL);
+  if (esl_stats_IncompleteGamma(1./tau, exp(tau * log(y)), &val, NULL) != eslOK) return eslNaN; /* <val> was not set */
   return log(val);
 }
 
@@ -134,7 +134,7 @@ esl_sxp_surv(double x, double mu, double lambda, double tau)
 
   if (x <= mu) return 1.0;
 
-  esl_stats_IncompleteGamma(1./tau, exp(tau * log(y)), NULL, &val);
+  if (esl_stats_IncompleteGamma(1./tau, exp(tau * log(y)), NULL, &val) != eslOK) return eslNaN; /* <val> was not set */
   return val;
 }
 
@@ -152,7 +152,7 @@ esl_sxp_logsurv(double x, double mu, double lambda, double tau)
 
   if (x <= mu) return 0.0;
 
-  esl_stats_IncompleteGamma(1./tau, exp(tau * log(y)), NULL, &val);
+  if (esl_stats_IncompleteGamma(1./tau, exp(tau * log(y)), NULL, &val) != eslOK) return eslNaN; /* <val> was not set */
   return log(val);
 }
 
